@@ -22,6 +22,7 @@ type Ctx struct {
 	Tier string
 
 	Overlay map[string][]byte
+	Dead    map[string]bool // helpers inlined everywhere by package norm (left out of every loaded program)
 	Fold    *FoldSet // registered helpers (see roles.go)
 	Sub     *SubCache // reports of included properties, shared along include chains
 	conn    map[string]*ana.Prog
@@ -76,7 +77,7 @@ func (c *Ctx) Other(module string, patterns ...string) (*ana.Prog, error) {
 	if len(patterns) == 0 {
 		patterns = []string{"./..."}
 	}
-	l, err := load.Load(load.Options{Module: module, Patterns: patterns, Overlay: c.Overlay, Full: false})
+	l, err := load.Load(load.Options{Module: module, Patterns: patterns, Overlay: c.Overlay, Full: false, Dead: c.Dead})
 	if err != nil {
 		return nil, err
 	}
@@ -278,7 +279,7 @@ func (c *Ctx) includeKeys(label, other string, keep func(rule string) bool, keep
 	if sub == nil {
 		sub = report.New(c.R.Dir, other, c.Tier, c.R.Seed)
 		c.Sub.M[other] = sub
-		sc := &Ctx{R: sub, P: c.P, Tier: c.Tier, Overlay: c.Overlay, conn: c.conn, roots: c.roots, Fold: c.Fold, Sub: c.Sub}
+		sc := &Ctx{R: sub, P: c.P, Tier: c.Tier, Overlay: c.Overlay, Dead: c.Dead, conn: c.conn, roots: c.roots, Fold: c.Fold, Sub: c.Sub}
 		f(sc)
 		if c.conn == nil {
 			c.conn = sc.conn
@@ -332,3 +333,20 @@ func rulesIn(list ...string) func(string) bool {
 
 // SubCache memoises the reports of included properties within one pass.
 type SubCache struct{ M map[string]*report.Report }
+
+// LoadedModules returns the other Go modules of the repository this check has loaded.
+func (c *Ctx) LoadedModules() map[string]*ana.Prog {
+	out := map[string]*ana.Prog{}
+	for k, v := range c.conn {
+		out[k] = v
+	}
+	return out
+}
+
+// ShareModules lets this context reuse the other modules already loaded by another one.
+func (c *Ctx) ShareModules(o *Ctx) {
+	if o.conn == nil {
+		o.conn = map[string]*ana.Prog{}
+	}
+	c.conn = o.conn
+}
